@@ -221,4 +221,219 @@ theorem leaderAll_sound (c : Cluster) (hwf : BrokersWF c) (tps : List (String ×
           · have : b = cur' := keep rest cur' b h (by omega)
             exact ih cur' h (Or.inr this.symm) tn ps hmem p hp
 
+/-! ### bisection -/
+
+theorem searchLoop_spec (f : Nat → Bool) (n : Nat) (mono : ∀ a b, a ≤ b → b < n → f a = true → f b = true)
+    (fuel i j : Nat) (hij : i ≤ j) (hjn : j ≤ n) (hfuel : j - i ≤ fuel)
+    (hlo : ∀ k, k < i → f k = false) (hhi : j < n → f j = true) :
+    let r := searchLoop f fuel i j
+    r ≤ n ∧ (∀ k, k < r → f k = false) ∧ (r < n → f r = true) := by
+  induction fuel generalizing i j with
+  | zero =>
+    have : i = j := by omega
+    subst this
+    simp only [searchLoop]
+    exact ⟨hjn, hlo, hhi⟩
+  | succ fuel ih =>
+    simp only [searchLoop]
+    split
+    · next hlt =>
+      have hh : (i + j) / 2 < j := by omega
+      have hh' : i ≤ (i + j) / 2 := by omega
+      by_cases hf : f ((i + j) / 2) = true
+      · simp only [hf, Bool.not_true, Bool.false_eq_true, ↓reduceIte]
+        exact ih i ((i + j) / 2) hh' (by omega) (by omega) hlo (fun _ => hf)
+      · have hf' : f ((i + j) / 2) = false := by simpa using hf
+        simp only [hf', Bool.not_false, ↓reduceIte]
+        refine ih ((i + j) / 2 + 1) j (by omega) hjn (by omega) ?_ hhi
+        intro k hk
+        by_cases hki : k < i
+        · exact hlo k hki
+        · cases hfk : f k with
+          | false => rfl
+          | true =>
+            have := mono k ((i + j) / 2) (by omega) (by omega) hfk
+            rw [hf'] at this; cases this
+    · next hge =>
+      have : i = j := by omega
+      subst this
+      exact ⟨hjn, hlo, hhi⟩
+
+theorem sortSearch_spec (f : Nat → Bool) (n : Nat) (mono : ∀ a b, a ≤ b → b < n → f a = true → f b = true) :
+    sortSearch n f ≤ n ∧ (∀ k, k < sortSearch n f → f k = false) ∧ (sortSearch n f < n → f (sortSearch n f) = true) :=
+  searchLoop_spec f n mono n 0 n (Nat.zero_le _) (Nat.le_refl _) (by omega) (fun k hk => by omega) (fun h => by omega)
+
+/-! ### sorted topic lists -/
+
+def SortedTopics (ts : List MTopic) : Prop := List.Pairwise (fun a b => a.name < b.name) ts
+
+theorem sorted_get_lt (ts : List MTopic) (hs : SortedTopics ts) (a b : Nat) (hab : a < b) (ta tb : MTopic)
+    (ha : ts[a]? = some ta) (hb : ts[b]? = some tb) : ta.name < tb.name := by
+  have hbl : b < ts.length := by
+    rcases Nat.lt_or_ge b ts.length with h | h
+    · exact h
+    · rw [List.getElem?_eq_none h] at hb; cases hb
+  have hal : a < ts.length := by omega
+  rw [List.getElem?_eq_getElem hal] at ha
+  rw [List.getElem?_eq_getElem hbl] at hb
+  cases ha; cases hb
+  exact (List.pairwise_iff_getElem.mp hs) a b hal hbl hab
+
+theorem find?_of_first (ts : List MTopic) (n : String) (r : Nat) (t : MTopic)
+    (hbefore : ∀ k tk, k < r → ts[k]? = some tk → tk.name ≠ n) (hr : ts[r]? = some t) (ht : t.name = n) :
+    ts.find? (fun x => x.name == n) = some t := by
+  induction ts generalizing r with
+  | nil => simp at hr
+  | cons x xs ih =>
+    cases r with
+    | zero =>
+      simp only [List.getElem?_cons_zero, Option.some.injEq] at hr
+      subst hr
+      simp [List.find?, ht]
+    | succ r =>
+      have hx : x.name ≠ n := hbefore 0 x (by omega) (by simp)
+      have : (x.name == n) = false := by simpa using hx
+      simp only [List.find?, this]
+      apply ih r
+      · intro k tk hk hget
+        exact hbefore (k + 1) tk (by omega) (by simpa using hget)
+      · simpa using hr
+
+theorem findTopic_correct (ts : List MTopic) (hs : SortedTopics ts) (n : String) :
+    (match findTopic ts n with
+     | some j => ts.getD j (unknownTopic n)
+     | none => unknownTopic n) = (ts.find? (fun x => x.name == n)).getD (unknownTopic n) := by
+  let f : Nat → Bool := fun i => match ts[i]? with | some t => decide (n ≤ t.name) | none => true
+  have mono : ∀ a b, a ≤ b → b < ts.length → f a = true → f b = true := by
+    intro a b hab hb hfa
+    have hal : a < ts.length := by omega
+    simp only [f, List.getElem?_eq_getElem hal, List.getElem?_eq_getElem hb, decide_eq_true_eq] at hfa ⊢
+    rcases Nat.lt_or_ge a b with h | h
+    · have := sorted_get_lt ts hs a b h ts[a] ts[b] (List.getElem?_eq_getElem hal) (List.getElem?_eq_getElem hb)
+      exact String.le_trans hfa (String.not_lt.mp (fun h' => String.lt_irrefl _ (String.lt_trans this h')))
+    · have : a = b := by omega
+      subst this; exact hfa
+  obtain ⟨hle, hlo, hhi⟩ := sortSearch_spec f ts.length mono
+  have hfind : findTopic ts n = (match ts[sortSearch ts.length f]? with
+      | some t => if t.name == n then some (sortSearch ts.length f) else none
+      | none => none) := rfl
+  rw [hfind]
+  -- every index before r holds a smaller name
+  have hbefore : ∀ k tk, k < sortSearch ts.length f → ts[k]? = some tk → tk.name ≠ n := by
+    intro k tk hk hget heq
+    have := hlo k hk
+    simp only [f, hget, decide_eq_false_iff_not] at this
+    exact this (heq ▸ String.le_refl _)
+  cases hr : ts[sortSearch ts.length f]? with
+  | none =>
+    -- r = length: no topic is ≥ n
+    simp only
+    have hnone : ts.find? (fun x => x.name == n) = none := by
+      apply List.find?_eq_none.mpr
+      intro x hx
+      obtain ⟨k, hk, hkx⟩ := List.getElem_of_mem hx
+      have hrl : ts.length ≤ sortSearch ts.length f := by
+        rcases Nat.lt_or_ge (sortSearch ts.length f) ts.length with h | h
+        · rw [List.getElem?_eq_getElem h] at hr; cases hr
+        · exact h
+      have := hbefore k x (by omega) (by rw [List.getElem?_eq_getElem hk, hkx])
+      simpa using this
+    rw [hnone]; rfl
+  | some t =>
+    simp only
+    have hrl : sortSearch ts.length f < ts.length := by
+      rcases Nat.lt_or_ge (sortSearch ts.length f) ts.length with h | h
+      · exact h
+      · rw [List.getElem?_eq_none h] at hr; cases hr
+    by_cases hname : t.name == n
+    · have heq : t.name = n := by simpa using hname
+      simp only [hname, ↓reduceIte]
+      rw [find?_of_first ts n _ t hbefore hr heq]
+      simp [List.getD, hr]
+    · simp only [hname, Bool.false_eq_true, ↓reduceIte]
+      have hne : t.name ≠ n := by simpa using hname
+      have hge := hhi hrl
+      simp only [f, hr, decide_eq_true_eq] at hge
+      have hnone : ts.find? (fun x => x.name == n) = none := by
+        apply List.find?_eq_none.mpr
+        intro x hx
+        obtain ⟨k, hk, hkx⟩ := List.getElem_of_mem hx
+        rcases Nat.lt_trichotomy k (sortSearch ts.length f) with h | h | h
+        · have := hbefore k x h (by rw [List.getElem?_eq_getElem hk, hkx])
+          simpa using this
+        · subst h
+          rw [List.getElem?_eq_getElem hk, hkx] at hr
+          cases hr
+          simpa using hne
+        · have hlt := sorted_get_lt ts hs _ k h t x hr (by rw [List.getElem?_eq_getElem hk, hkx])
+          have hlt0 : n < t.name := by
+            apply Classical.byContradiction
+            intro h'
+            exact hne (String.le_antisymm (String.not_lt.mp h') hge)
+          have : n < x.name := String.lt_trans hlt0 hlt
+          simp only [beq_iff_eq]
+          intro he
+          exact String.lt_irrefl _ (he ▸ this)
+      rw [hnone]; rfl
+
+/-! ### the metadata cache and the connection groups -/
+
+/-- the pool has a connection group for exactly the brokers of its cached layout -/
+def ConnsInv (s : PoolState) : Prop := ∀ id, id ∈ s.conns ↔ id ∈ keys s.layout.brokers
+
+theorem conns_update (oldB newB : List (Int × Broker)) (conns : List Int)
+    (inv : ∀ id, id ∈ conns ↔ id ∈ keys oldB) (id : Int) :
+    id ∈ (conns.filter (fun id => !(((keys newB).filter (fun id =>
+              match oldB.lookup id with
+              | none => false
+              | some b1 => some b1 != newB.lookup id)) ++
+            ((keys oldB).filter (fun id => (newB.lookup id).isNone))).contains id)) ++
+          ((keys newB).filter (fun id =>
+              match oldB.lookup id with
+              | none => true
+              | some b1 => some b1 != newB.lookup id))
+      ↔ id ∈ keys newB := by
+  have hold := mem_keys_iff_lookup oldB id
+  have hnew := mem_keys_iff_lookup newB id
+  simp only [List.mem_append, List.mem_filter, List.contains_eq_mem, List.mem_append, Bool.not_eq_true',
+    decide_eq_false_iff_not, inv id]
+  constructor
+  · rintro (⟨_, _⟩ | ⟨h, _⟩)
+    · next hin hnd =>
+      -- in the old map, not deleted: the new map must still hold it
+      cases hn : newB.lookup id with
+      | some b => exact hnew.mpr (by simp [hn])
+      | none =>
+        exfalso; apply hnd
+        right; exact ⟨hin, by simp [hn]⟩
+    · exact h
+  · intro hin
+    cases ho : oldB.lookup id with
+    | none => right; exact ⟨hin, by simp⟩
+    | some b1 =>
+      by_cases hch : (some b1 != newB.lookup id) = true
+      · right; exact ⟨hin, by simp [hch]⟩
+      · left
+        refine ⟨hold.mpr (by simp [ho]), ?_⟩
+        rintro (⟨_, h2⟩ | ⟨_, h2⟩)
+        · simp at h2; exact hch (by simpa using h2)
+        · have := hnew.mp hin
+          cases hn : newB.lookup id with
+          | none => simp [hn] at this
+          | some b => simp [hn] at h2
+
+theorem update_connsInv (s : PoolState) (m : Option MResponse) (err : Bool) (h : ConnsInv s) :
+    ConnsInv (update s m err) := by
+  unfold update
+  cases err with
+  | true =>
+    simp only [↓reduceIte]
+    split
+    · exact h
+    · exact h
+  | false =>
+    simp only [Bool.false_eq_true, ↓reduceIte]
+    intro id
+    exact conns_update s.layout.brokers _ s.conns h id
+
 end KV.Lemmas.Routing
